@@ -47,12 +47,16 @@ type task struct {
 }
 
 func Run(cfg Config, res *core.Result) error {
-	bhs, _, err := Load(cfg.In)
-	if err != nil {
-		return err
-	}
-	if len(bhs) == 0 {
-		return fmt.Errorf("no behaviours in %s", cfg.In)
+	var bhs []Behaviour
+	if cfg.In != "" { // without an input file only the first-use probe runs (replay of a first-use violation)
+		var err error
+		bhs, _, err = Load(cfg.In)
+		if err != nil {
+			return err
+		}
+		if len(bhs) == 0 {
+			return fmt.Errorf("no behaviours in %s", cfg.In)
+		}
 	}
 	res.AddTraces(len(bhs))
 	var names []string
@@ -88,6 +92,11 @@ func Run(cfg Config, res *core.Result) error {
 		probe = append(probe, groups.ByName(n))
 	}
 	FirstUse(probe, fu, res, cfg.Prop)
+	if cfg.In == "" {
+		res.AddTraces(1)
+		res.Sample(map[string]any{"firstuse": fu, "groups": names})
+		return nil
+	}
 	var tasks []task
 	for _, n := range names {
 		for b := 0; b < cfg.Bindings; b++ {
